@@ -554,7 +554,7 @@ class SelectorScenario:
             "quiet": q,
             "faults": f,
             "timeout": 180.0,
-            "budget": 75.0 if tier == "quick" else 3 * 3600.0,
+            "budget": 75.0 if tier == "quick" else 3600.0,
             "slice": 12 if tier == "quick" else 40,
         }
 
